@@ -10,9 +10,22 @@ S->I: TLC enumerates every package of two bounded families (api: 0..3 test block
       rendered to source, run through Package::run_tests in the harness (mark(k) host
       calls) or through the roto CLI built from /repo (marker lines on stdout) and the
       observations are compared.
+      Disk families (disk / diskcli): the package is a DIRECTORY.  TLC enumerates the shape of
+      the directory (subsets of MCTestRunner!DiskUniverse: pkg.roto, name.roto, name/mod.roto,
+      nested module directories, files inside them, several sub-directories next to files,
+      directories without mod.roto, files that are not Roto files, empty directories, no
+      pkg.roto) x the order in which the entries are created x what is wrong in which file
+      (rejecting test, missing test, type / syntax error; inside and outside the package) and
+      computes from the documented discovery rules (TestRunner!LiveMods) which blocks run, the
+      verdict and the exit status.  The directory is written (on a tmpfs if there is one: the
+      listing order is then the reverse creation order), read back by FileTree::read in the
+      harness / given to `roto check|test|run <dir>`.  The listing order the file system really
+      produced is observed and must contain 'sub-directory before another module' and the converse.
 I->S: seeded random packages (more tests, deeper module trees, more name collisions) are
       run the same way; the observed events (compile result, marks per test body, verdict,
-      exit status) must be a behaviour of TestRunner (TLC trace validation).
+      exit status) must be a behaviour of TestRunner (TLC trace validation).  A part of them are
+      random package directories (random file / directory form per module, files outside the
+      package, random creation order) read back from disk.
 """
 import os
 import random
@@ -112,8 +125,14 @@ def layout(pkg, mode):
     tests of the file ("first"), after them ("last") or at pseudo-random places between them
     ("mixed"); sibling module files are in shuffled order.  None of this may influence what the
     specification expects."""
-    rng = random.Random(vlib.shash(pkg))
-    mods = [tuple(nm(x) for x in m) for m in pkg["mods"]]
+    disk = pkg.get("disk") or []
+    # (the seed of the in-memory packages does not depend on the fields that only disk packages use)
+    rng = random.Random(vlib.shash(pkg if disk else {k: v for k, v in pkg.items() if k not in ("disk", "brokenAt")}))
+    if disk:
+        # a package directory: the texts are those of the FILES of pkg.disk (entry.mod names the file)
+        mods = [tuple(nm(x) for x in e["mod"]) for e in disk if e["ext"] != "dir"]
+    else:
+        mods = [tuple(nm(x) for x in m) for m in pkg["mods"]]
     tests = {m: [] for m in mods}
     others = {m: [] for m in mods}
     needs = {m: [] for m in mods}
@@ -141,9 +160,11 @@ def layout(pkg, mode):
             for o in others[m]:
                 items[m].insert(rng.randrange(len(items[m]) + 1), o)
     if pkg["broken"] != "none":
-        m = rng.choice(mods)
+        m = tuple(nm(x) for x in pkg["brokenAt"]) if disk else rng.choice(mods)
         bad = "fn broken_( {\n" if pkg["broken"] == "syntax" else "fn broken_() -> u64 {\n    true\n}\n"
         items[m].insert(rng.randrange(len(items[m]) + 1), ("broken", 0, bad))
+    if disk:
+        return [(m, items[m]) for m in mods]          # the order of pkg.disk
     # parents before children, siblings in shuffled order
     order = []
 
@@ -162,6 +183,77 @@ def layout(pkg, mode):
 def render_pkg(pkg, mode):
     """-> list of {"mod": [names], "src": text} (see layout)"""
     return [{"mod": list(m), "src": "\n".join(x[2] for x in its)} for m, its in layout(pkg, mode)]
+
+
+def entry_path(e):
+    """relative path of a directory entry of a disk package"""
+    name = nm(e["stem"]) + ("" if e["ext"] == "dir" else "." + e["ext"])
+    return "/".join([nm(x) for x in e["dir"]] + [name])
+
+
+def render_disk(pkg, mode):
+    """disk package -> [{"path": relative path, "kind": "file"|"dir", "src": text}] in the order of
+    pkg.disk (= the order in which the entries are to be created)."""
+    texts = {m: "\n".join(x[2] for x in its) for m, its in layout(pkg, mode)}
+    out = []
+    for e in pkg["disk"]:
+        if e["ext"] == "dir":
+            out.append({"path": entry_path(e), "kind": "dir", "src": ""})
+        else:
+            out.append({"path": entry_path(e), "kind": "file", "src": texts[tuple(nm(x) for x in e["mod"])]})
+    return out
+
+
+def render_any(pkg, mode):
+    return render_disk(pkg, mode) if pkg.get("disk") else render_pkg(pkg, mode)
+
+
+def api_case(pkg, tmpfs=True):
+    """the harness case of a package: in-memory tree, or a directory written below disk_base() (or in the
+    system's temporary directory) and read back"""
+    if pkg.get("disk"):
+        return {"disk": render_disk(pkg, "api"), "base": disk_base() if tmpfs else None}
+    return {"files": render_pkg(pkg, "api")}
+
+
+_DISK_BASE = []
+
+
+def disk_base():
+    """Where package directories are written: a tmpfs when there is one (there the file system lists
+    a directory in the reverse order of creation, so the creation order TLC enumerates is the listing
+    order), else the work directory (ext4: hash order of the names).  What order really occurred is
+    observed, see listing_features."""
+    if not _DISK_BASE:
+        import atexit
+        import tempfile
+        d = None
+        if os.path.isdir("/dev/shm") and os.access("/dev/shm", os.W_OK):
+            try:
+                d = tempfile.mkdtemp(prefix="verif_c19_", dir="/dev/shm")
+                atexit.register(shutil.rmtree, d, True)
+            except OSError:
+                d = None
+        if d is None:
+            d = vlib.workdir(PID, "disk", clean=True)
+        _DISK_BASE.append(d)
+    return _DISK_BASE[0]
+
+
+def scan_listing(root):
+    """{relative directory: names in the order the file system lists them} (an observation)"""
+    out = {}
+    todo = [""]
+    while todo:
+        rel = todo.pop()
+        names = []
+        with os.scandir(os.path.join(root, rel) if rel else root) as it:
+            for ent in it:
+                names.append(ent.name)
+                if ent.is_dir(follow_symlinks=False):
+                    todo.append(rel + "/" + ent.name if rel else ent.name)
+        out[rel] = names
+    return out
 
 
 def positions(pkg):
@@ -185,8 +277,24 @@ def positions(pkg):
     return pos, last
 
 
+LISTINGS = {}       # package directory written for the CLI -> scan_listing
+
+
 def write_cli_pkg(pkg, root, key):
     """Write the package below `root`; returns the path to pass to the CLI."""
+    if pkg.get("disk"):
+        d = os.path.join(root, "k_%s" % key)
+        os.makedirs(d)
+        for ent in render_disk(pkg, "cli"):
+            p = os.path.join(d, ent["path"])
+            if ent["kind"] == "dir":
+                os.makedirs(p, exist_ok=True)
+            else:
+                os.makedirs(os.path.dirname(p), exist_ok=True)
+                with open(p, "w") as f:
+                    f.write(ent["src"])
+        LISTINGS[d] = scan_listing(d)
+        return d
     files = render_pkg(pkg, "cli")
     rng = random.Random(key)
     if len(files) == 1 and rng.random() < 0.7:
@@ -213,8 +321,156 @@ def write_cli_pkg(pkg, root, key):
 
 # ------------------------------------------------------------- classification
 
+def entry_class(e, live):
+    """where a file of a package directory sits (classification only; `live` is TLC's)"""
+    depth = len(e["dir"])
+    stem = nm(e["stem"])
+    if not live:
+        return "outside_" + e["ext"]
+    if stem == "pkg":
+        return "root"
+    if stem == "mod":
+        return "dirmod" if depth == 1 else "nested_dirmod"
+    return "file" if depth == 0 else "file_in_dir" if depth == 1 else "deep_file"
+
+
+def module_dirs(pkg, live):
+    """{directory (tuple of names) that is a module directory: (names of the entries in it that are
+    modules: x.roto / x, names of all sub-directories)}: from the entries and TLC's `live`"""
+    disk = pkg["disk"]
+    mdirs = {()}
+    for e, lv in zip(disk, live):
+        if lv and nm(e["stem"]) == "mod":
+            mdirs.add(tuple(nm(x) for x in e["dir"]))
+    out = {d: (set(), set()) for d in mdirs}
+    for e, lv in zip(disk, live):
+        d = tuple(nm(x) for x in e["dir"])
+        stem = nm(e["stem"])
+        for k in range(len(d)):                       # every directory on the way exists
+            if d[:k] in out:
+                out[d[:k]][1].add(d[k])
+        if e["ext"] == "dir" and d in out:
+            out[d][1].add(stem)
+        if lv and stem == "mod" and d[:-1] in out:
+            out[d[:-1]][0].add(d[-1])
+        elif lv and stem != "pkg" and d in out:
+            out[d][0].add(stem + ".roto")
+    return out
+
+
+def disk_features(case):
+    """situations of the disk families (shape of the directory, where what is wrong)"""
+    pkg, cmd, live = case["pkg"], case["cmd"], case["live"]
+    disk = pkg["disk"]
+    fs = set()
+    cls = {}
+    for e, lv in zip(disk, live):
+        if e["ext"] == "dir":
+            fs.add("disk:made_dir")
+            continue
+        c = entry_class(e, lv)
+        cls[tuple(map(tuple, e["mod"]))] = c
+        fs.add("disk:has:" + c)
+    if not any(nm(e["stem"]) == "pkg" for e in disk):
+        fs.add("disk:no_root")
+    for d, (mods, subdirs) in module_dirs(pkg, live).items():
+        msub = {x for x in mods if x in subdirs}
+        mfile = mods - msub
+        if len(msub) >= 2:
+            fs.add("disk:two_module_subdirs")
+        if msub and mfile:
+            fs.add("disk:module_subdir_next_to_module_file")
+        if (subdirs - msub) and mods:
+            fs.add("disk:other_subdir_next_to_module")
+        if len(subdirs) >= 2 and mfile:
+            fs.add("disk:several_subdirs_next_to_files")
+        if d and mods:
+            fs.add("disk:modules_inside_module_dir")
+    # what is wrong where
+    wrong = []
+    for t in pkg["tests"]:
+        if t["out"] == "reject":
+            wrong.append("reject@" + cls[tuple(map(tuple, t["mod"]))])
+    if pkg["broken"] != "none":
+        wrong.append(pkg["broken"] + "@" + cls[tuple(map(tuple, pkg["brokenAt"]))])
+    have = {tuple(map(tuple, t["mod"])) for t in pkg["tests"]}
+    for m, c in cls.items():
+        if m not in have:
+            wrong.append("notest@" + c)
+    for w in wrong:
+        fs.add("disk:" + w)
+    if len(wrong) >= 2:
+        fs.add("disk:two_wrong")
+    kind = cmd["kind"]
+    if kind != "api":
+        what = ("no_root" if "disk:no_root" in fs else
+                "entry@" + cls[tuple(map(tuple, cmd["mod"]))] if cmd["explicit"] else
+                "+".join(sorted(wrong)) if wrong else "clean")
+        fs.add("diskcli:%s%s:%s:%s" % (kind, "+path" if cmd["explicit"] else "", case["exit"], what))
+    elif case["compiles"]:
+        fs.add("disk:verdict_" + case["verdict"])
+        if len(case["log"]) >= 2:
+            fs.add("two_or_more_run")
+    else:
+        fs.add("disk:rejected")
+    return fs
+
+
+def listing_features(pkg, live, listing):
+    """In which order the file system really listed the entries of the module directories (an
+    observation of the operating system, made by the harness / by python after writing)."""
+    fs = set()
+    for d, (mods, subdirs) in module_dirs(pkg, live).items():
+        names = listing.get("/".join(d))
+        if names is None:
+            continue
+        pos = {n: k for k, n in enumerate(names)}
+        for sd in subdirs:
+            for m in mods:
+                if m == sd or sd not in pos or m not in pos:
+                    continue
+                fs.add("listing:subdir_before_module" if pos[sd] < pos[m] else "listing:module_before_subdir")
+                if m in subdirs:
+                    fs.add("listing:subdir_before_module_subdir")
+    return fs
+
+
+LIVE_CLASSES = ["root", "file", "dirmod", "file_in_dir", "nested_dirmod"]
+OUTSIDE_CLASSES = ["outside_roto", "outside_txt"]
+DISK_SHAPES_REQUIRED = ["disk:has:" + c for c in LIVE_CLASSES + OUTSIDE_CLASSES] + [
+    "disk:made_dir", "disk:no_root", "disk:two_module_subdirs", "disk:module_subdir_next_to_module_file",
+    "disk:other_subdir_next_to_module", "disk:several_subdirs_next_to_files", "disk:modules_inside_module_dir"]
+LISTING_REQUIRED = ["listing:subdir_before_module", "listing:module_before_subdir",
+                    "listing:subdir_before_module_subdir"]
+
+
+def disk_required(fam, badkinds):
+    req = list(DISK_SHAPES_REQUIRED)
+    if fam == "disk":
+        req += ["disk:%s@%s" % (k, c) for k in badkinds for c in LIVE_CLASSES + OUTSIDE_CLASSES]
+        req += ["disk:verdict_ok", "disk:verdict_err", "disk:rejected"]
+        return req
+    req = [r for r in req if r not in ("disk:has:nested_dirmod", "disk:made_dir")]
+    live, out = ["root", "file", "dirmod", "file_in_dir"], OUTSIDE_CLASSES
+    for k in ("check", "test", "run"):
+        req += ["diskcli:%s:success:clean" % k, "diskcli:%s:failure:no_root" % k]
+        if "type" in badkinds:
+            req += ["diskcli:%s:failure:type@%s" % (k, c) for c in live]
+            req += ["diskcli:%s:success:type@%s" % (k, c) for c in out]
+    if "reject" in badkinds:
+        req += ["diskcli:test:failure:reject@%s" % c for c in live]
+        req += ["diskcli:test:success:reject@%s" % c for c in out]
+        req += ["diskcli:check:success:reject@%s" % c for c in live]
+        req += ["diskcli:run:success:reject@%s" % c for c in live]
+    req += ["diskcli:run+path:success:entry@%s" % c for c in live]
+    req += ["diskcli:run+path:failure:entry@%s" % c for c in out]
+    return req
+
+
 def features(case):
     """Which situations of the property a TLC-generated case exercises (anti-vacuity)."""
+    if case["pkg"].get("disk"):
+        return disk_features(case)
     pkg, cmd = case["pkg"], case["cmd"]
     tests, funcs = pkg["tests"], pkg["funcs"]
     fs = set()
@@ -356,6 +612,9 @@ def nontrivial(case):
     function shares the name of a test, or a test body contains a call, or the package is
     rejected for a duplicate test; for CLI cases also whenever failure must be reported."""
     fs = features(case)
+    if case["pkg"].get("disk"):
+        # a package directory exercises the discovery whenever it holds more than pkg.roto
+        return len(case["pkg"]["disk"]) >= 2
     if any(f.startswith("body:") for f in fs):
         return True
     if fs & {"two_or_more_run", "fn_named_like_test", "dup_test", "call_fn", "call_test_only",
@@ -368,9 +627,13 @@ def nontrivial(case):
 
 def mc_cfg(path, family, max1, max2, tnames, subnames, fnnames, callnames, brokens=("none",),
            mainsigs=("none",), runnames=(), submain=(False,), bodies=("plain",), fnpos=("mixed",), nodups=False,
-           modshapes=("single", "sub"), subfnnames=(), runmods=("",)):
+           modshapes=("single", "sub"), subfnnames=(), runmods=("",), diskopt=(), diskmaxopt=0,
+           diskorders=("fwd",), diskroots=(True,), badkinds=(), diskmaxbad=1, disktnames=("a",)):
     def sset(xs):
         return "{%s}" % ", ".join('"%s"' % x for x in xs)
+
+    def bset(xs):
+        return "{%s}" % ", ".join("TRUE" if b else "FALSE" for b in xs)
     with open(path, "w") as f:
         f.write("""SPECIFICATION MCSpec
 CONSTANTS
@@ -391,11 +654,20 @@ CONSTANTS
   ModShapes = %s
   SubFnNames = %s
   RunMods = %s
+  DiskOpt = {%s}
+  DiskMaxOpt = %d
+  DiskOrders = %s
+  DiskRoots = %s
+  BadKinds = %s
+  DiskMaxBad = %d
+  DiskTNames = %s
 INVARIANTS MCInv Emit
 CHECK_DEADLOCK FALSE
 """ % (family, max1, max2, sset(tnames), sset(subnames), sset(fnnames), sset(callnames), sset(brokens),
        sset(mainsigs), sset(runnames), ", ".join("TRUE" if b else "FALSE" for b in submain),
-       sset(bodies), sset(fnpos), "TRUE" if nodups else "FALSE", sset(modshapes), sset(subfnnames), sset(runmods)))
+       sset(bodies), sset(fnpos), "TRUE" if nodups else "FALSE", sset(modshapes), sset(subfnnames), sset(runmods),
+       ", ".join(str(k) for k in diskopt), diskmaxopt, sset(diskorders), bset(diskroots), sset(badkinds),
+       diskmaxbad, sset(disktnames)))
 
 
 def plans(tier):
@@ -440,20 +712,43 @@ def plans(tier):
     return api, cli
 
 
+def disk_plans(tier):
+    """package DIRECTORIES: shapes (subsets of MCTestRunner!DiskUniverse) x creation orders x what is
+    wrong in which file; indices: 2 b.roto, 3 a/mod.roto, 4 a/s.roto, 5 a/d/mod.roto, 6 c/mod.roto,
+    7 n/r.txt, 8 e/, 9 r.txt, 10 n/g.roto, 11 a/d/t.roto, 12 c/u.roto, 13 a/e/, 14 n/m/mod.roto"""
+    none = dict(max1=0, max2=0, tnames=["a"], subnames=["m"], fnnames=[], callnames=[])
+    both = ["fwd", "rev"]
+    if tier == "quick":
+        disk = [("disk", dict(none, diskopt=[2, 3, 4, 5, 6, 7, 8, 10], diskmaxopt=3, diskorders=both,
+                              diskroots=[True, False], badkinds=["reject", "type", "notest"]))]
+        dcli = [("diskcli", dict(none, diskopt=[2, 3, 4, 6, 7], diskmaxopt=3, diskorders=both,
+                                 diskroots=[True, False], badkinds=["reject", "type"]))]
+    else:
+        disk = [("disk", dict(none, diskopt=list(range(2, 15)), diskmaxopt=4, diskorders=both,
+                              diskroots=[True, False], badkinds=["reject", "type", "syntax", "notest"])),
+                ("disk_two", dict(none, diskopt=[2, 3, 4, 5, 6, 7, 10, 12], diskmaxopt=3, diskorders=both,
+                                  diskroots=[True], badkinds=["reject", "type", "notest"], diskmaxbad=2,
+                                  disktnames=["a", "tesu"]))]
+        dcli = [("diskcli", dict(none, diskopt=[2, 3, 4, 5, 6, 7, 8, 9, 10, 12], diskmaxopt=3, diskorders=both,
+                                 diskroots=[True, False], badkinds=["reject", "type", "syntax"]))]
+    return disk, dcli
+
+
 def generate(tier, ev):
     d = vlib.workdir(PID, "cfg")
     api_plans, cli_plans = plans(tier)
-    out = {"api": [], "cli": []}
+    dsk_plans, dcli_plans = disk_plans(tier)
+    out = {"api": [], "cli": [], "disk": [], "diskcli": []}
     parts = []
-    for fam, pl in (("api", api_plans), ("cli", cli_plans)):
+    for fam, pl in (("api", api_plans), ("cli", cli_plans), ("disk", dsk_plans), ("diskcli", dcli_plans)):
         for tag, kw in pl:
             cfg = os.path.join(d, "mc_%s.cfg" % tag)
             mc_cfg(cfg, fam, **kw)
             r = run_tlc("MCTestRunner", cfg, workers=6, timeout=1500, heap="6g", coverage=True)
             require_tlc_ok(r, "MCTestRunner %s" % tag)
             ev.add_tlc(r)
-            need = ["Compile"] + (["RunSome", "Finish"] if kw["max1"] + kw["max2"] > 0 else []) + (
-                ["CheckDone", "RunEntry"] if fam == "cli" else [])
+            need = ["Compile"] + (["RunSome", "Finish"] if kw["max1"] + kw["max2"] > 0 or fam.startswith("disk")
+                                  else []) + (["CheckDone", "RunEntry"] if fam in ("cli", "diskcli") else [])
             vlib.require_coverage(r, need, "MCTestRunner %s" % tag)
             for c in r.replay:
                 c["plan"] = tag
@@ -470,6 +765,24 @@ def generate(tier, ev):
         if missing:
             raise vlib.ToolError("C19 %s cases never contain: %s" % (fam, missing))
         ev.extra.setdefault("case_family_counts", {})[fam] = dict(sorted(cnt.items()))
+    # the disk families: every shape class of a package directory, everything that can be wrong in a
+    # file at every kind of place in the tree (inside and outside the package)
+    for fam, pl in (("disk", dsk_plans), ("diskcli", dcli_plans)):
+        cnt = {}
+        for c in out[fam]:
+            for f in features(c):
+                cnt[f] = cnt.get(f, 0) + 1
+        kinds = sorted({k for _, kw in pl for k in kw["badkinds"]})
+        missing = [f for f in disk_required(fam, kinds) if cnt.get(f, 0) == 0]
+        if fam == "disk" and any(kw.get("diskmaxbad", 1) >= 2 for _, kw in pl) and not cnt.get("disk:two_wrong"):
+            missing.append("disk:two_wrong")
+        if missing:
+            raise vlib.ToolError("C19 %s cases never contain: %s" % (fam, missing))
+        ev.extra.setdefault("case_family_counts", {})[fam] = dict(sorted(cnt.items()))
+        ev.extra.setdefault("disk_classes", {})[fam] = {
+            "package_directories": len({vlib.shash(c["pkg"]["disk"]) for c in out[fam]}),
+            "shapes": len({vlib.shash(sorted(entry_path(e) for e in c["pkg"]["disk"])) for c in out[fam]}),
+            "cases": len(out[fam])}
     ev.extra["exhaustive_parts"] = parts
     return out
 
@@ -496,7 +809,7 @@ def sig_of(case, failure, **kw):
 
 
 def compare_api(case, res, verd):
-    rep = Lazy(lambda: {"case": case, "files": render_pkg(case["pkg"], "api"), "result": res})
+    rep = Lazy(lambda: {"case": case, "files": render_any(case["pkg"], "api"), "result": res})
     oc = vlib.outcome_of(res)
     if oc != "returned":
         step = {0: "compile", 1: "get_tests", 2: "run_tests", 3: "run_tests_again"}.get(res.get("step"), "?")
@@ -556,8 +869,9 @@ def cli_status(rr):
 
 
 def compare_cli(case, rr, path, verd):
-    rep = Lazy(lambda: {"case": case, "cli": cli_args(case, path), "files": render_pkg(case["pkg"], "cli"),
-                        "outcome": rr.outcome, "stdout": rr.out[-1500:], "stderr": rr.err[-1500:]})
+    rep = Lazy(lambda: {"case": case, "cli": cli_args(case, path), "files": render_any(case["pkg"], "cli"),
+                        "listing": LISTINGS.get(path), "outcome": rr.outcome, "stdout": rr.out[-1500:],
+                        "stderr": rr.err[-1500:]})
     status, abnormal = cli_status(rr)
     if abnormal:
         report(verd, sig_of(case, abnormal), "roto %s ended abnormally (%s): %s" % (
@@ -577,15 +891,21 @@ def compare_cli(case, rr, path, verd):
     return True
 
 
-def run_cli_cases(cases, tag, verd):
-    """-> list of (case, RunResult, path)"""
+def run_cli_cases(cases, tag, verd, tmpfs=True):
+    """-> list of (case, RunResult, path); package directories are written below disk_base(), or
+    (tmpfs=False) below the work directory like the single files"""
     root = vlib.workdir(PID, "cli_" + tag, clean=True)
+    droot = None
     paths = {}
     jobs = []
     for c in cases:
         key = vlib.shash(c["pkg"])
         if key not in paths:
-            paths[key] = write_cli_pkg(c["pkg"], root, key)
+            if c["pkg"].get("disk") and droot is None:
+                droot = os.path.join(disk_base() if tmpfs else root, "cli_" + tag)
+                shutil.rmtree(droot, ignore_errors=True)
+                os.makedirs(droot)
+            paths[key] = write_cli_pkg(c["pkg"], droot if c["pkg"].get("disk") else root, key)
         jobs.append(("c19cli", cli_args(c, paths[key]), {"timeout": 120, "cwd": root}))
     results = vlib.run_parallel(jobs, nproc=12)
     return [(c, rr, paths[vlib.shash(c["pkg"])]) for c, rr in zip(cases, results)]
@@ -641,7 +961,63 @@ def random_pkg(rng, flat, big):
                       "out": rng.choices(["accept", "reject"], [4, 1])[0], "call": call, "body": body})
     broken = rng.choices(["none", "syntax", "type"], [38, 1, 1])[0]
     return {"mods": [[codes(x) for x in m] for m in mods], "tests": tests, "funcs": funcs, "broken": broken,
-            "fnpos": rng.choice(["first", "first", "last", "mixed"])}
+            "fnpos": rng.choice(["first", "first", "last", "mixed"]), "disk": [], "brokenAt": []}
+
+
+def diskify(rng, pkg):
+    """Give a random package a random representation as a package DIRECTORY (inputs only): every module
+    without children is name.roto or name/mod.roto, modules with children are directories; plus files
+    and directories that are not part of the package (a directory without mod.roto holding Roto files
+    with test blocks, functions and possibly the unrelated error, a module directory below it, a file
+    that does not end in .roto, an empty directory); created in a random order."""
+    mods = [tuple(nm(x) for x in m) for m in pkg["mods"]]
+
+    def entry(d, stem, ext, mod):
+        return {"dir": [codes(x) for x in d], "stem": codes(stem), "ext": ext, "mod": [codes(x) for x in mod]}
+    disk = [entry((), "pkg", "roto", ())]
+    moddirs = [()]
+    for m in mods[1:]:
+        if any(len(c) > len(m) and c[:len(m)] == m for c in mods) or rng.random() < 0.4:
+            disk.append(entry(m, "mod", "roto", m))
+            moddirs.append(m)
+        else:
+            disk.append(entry(m[:-1], m[-1], "roto", m))
+    outside = []
+    for k in range(rng.choice([0, 1, 1, 2, 3])):
+        d = rng.choice(moddirs)
+        kind = rng.choice(["roto_in_plain_dir", "moddir_in_plain_dir", "txt", "empty"])
+        if kind == "roto_in_plain_dir":
+            m = d + ("gh%d" % k, rng.choice(["x", "a", "main"]))
+            disk.append(entry(m[:-1], m[-1], "roto", m))
+        elif kind == "moddir_in_plain_dir":
+            m = d + ("gh%d" % k, "sub")
+            disk.append(entry(m, "mod", "roto", m))
+        elif kind == "txt":
+            m = d + ("notes%d" % k,)
+            disk.append(entry(d, m[-1], "txt", m))
+        else:
+            disk.append(entry(d, "empty%d" % k, "dir", d + ("empty%d" % k,)))
+            continue
+        outside.append(m)
+    for m in outside:
+        mc = [codes(x) for x in m]
+        for _ in range(rng.choice([0, 1, 1, 2])):
+            n = rng.choice(NAMES)
+            if any(t["mod"] == mc and t["name"] == codes(n) for t in pkg["tests"]):
+                continue
+            pkg["tests"].insert(rng.randrange(len(pkg["tests"]) + 1),
+                                {"mod": mc, "name": codes(n), "out": rng.choice(["accept", "reject", "reject"]),
+                                 "call": [], "body": "plain"})
+        if rng.random() < 0.4:
+            pkg["funcs"].append({"mod": mc, "name": codes(rng.choice(["main", "a", "b"])), "sig": "unit"})
+    if outside and pkg["broken"] == "none" and rng.random() < 0.3:
+        pkg["broken"] = rng.choice(["syntax", "type"])
+        pkg["brokenAt"] = [codes(x) for x in rng.choice(outside)]
+    elif pkg["broken"] != "none":
+        pkg["brokenAt"] = rng.choice([e["mod"] for e in disk if e["ext"] != "dir"])
+    rng.shuffle(disk)
+    pkg["disk"] = disk
+    return pkg
 
 
 def chunk_marks(marks):
@@ -671,8 +1047,20 @@ def impl_to_spec(tier, ev, verd, corrupt=None):
     ev.extra["recorded_packages_ending_in_interpolating_test"] = nlast
     if nlast == 0:
         raise vlib.ToolError("no random package ends in a test block with a string interpolation")
-    cases = [{"files": render_pkg(p, "api")} for p in pkgs]
+    # package directories (random shapes, random creation order), read back from the system's
+    # temporary directory; their own random stream, so the packages above do not depend on them
+    rngd = random.Random(vlib.seed() * 19 + 5)
+    ndapi, ndcli = (100, 60) if tier == "quick" else (1500, 600)
+    dpk = [diskify(rngd, random_pkg(rngd, False, rngd.random() < 0.7)) for _ in range(ndapi)]
+    pkgs += dpk
+    cases = [api_case(p, tmpfs=False) for p in pkgs]
     results = vlib.run_batch("c19", cases, nproc=8, pid=PID, tag="rec", stall=60)
+    dstat = {"api_packages": ndapi, "cli_packages": ndcli, "api_compiled_with_2_tests_run": 0,
+             "with_files_outside_the_package": sum(1 for p in dpk if any(
+                 e["ext"] == "txt" or any(nm(x).startswith("gh") for x in e["dir"]) for e in p["disk"])),
+             "with_nested_module_directories": sum(1 for p in dpk if any(
+                 nm(e["stem"]) == "mod" and len(e["dir"]) >= 2 and not any(nm(x).startswith("gh") for x in e["dir"])
+                 for e in p["disk"]))}
     api_cmd = {"kind": "api", "explicit": False, "mod": [], "fn": codes("main")}
     for p, c, res in zip(pkgs, cases, results):
         pseudo = {"pkg": p, "cmd": api_cmd}
@@ -689,9 +1077,15 @@ def impl_to_spec(tier, ev, verd, corrupt=None):
             run.append({"op": "Finish", "verdict": r["result"]})
             ev.impl_actions.add("Finish")
         for e in run:
-            owners.append({"pkg": p, "cmd": api_cmd, "files": c["files"], "result": r})
+            owners.append({"pkg": p, "cmd": api_cmd, "files": c.get("files") or c.get("disk"), "result": r})
         events.extend(run)
         nruns += 1
+        if p["disk"] and r["compile"] == "ok" and len([k for k in r["log"] if k < 100]) >= 2:
+            dstat["api_compiled_with_2_tests_run"] += 1
+    ev.extra["recorded_disk_packages"] = dstat
+    if not (dstat["api_compiled_with_2_tests_run"] and dstat["with_files_outside_the_package"]
+            and dstat["with_nested_module_directories"]):
+        raise vlib.ToolError("recorded package directories are degenerate: %s" % dstat)
 
     # --- the roto binary
     cmds = []
@@ -717,8 +1111,27 @@ def impl_to_spec(tier, ev, verd, corrupt=None):
                 emod = [codes("nosuch")]
         cmds.append({"kind": kind, "explicit": explicit, "mod": emod, "fn": fn})
         cpk.append(p)
+    # package directories through the CLI (written below the work directory)
+    for _ in range(ndcli):
+        p = random_pkg(rngd, False, rngd.random() < 0.5)
+        if (rngd.random() < 0.7 and [codes("main")] not in p["mods"]
+                and not any(f["mod"] == [] and f["name"] == codes("main") for f in p["funcs"])):
+            p["funcs"].append({"mod": [], "name": codes("main"), "sig": rngd.choices(["unit", "param", "ret"], [8, 1, 1])[0]})
+        diskify(rngd, p)
+        kind = rngd.choice(["check", "test", "test", "run", "run"])
+        explicit = kind == "run" and rngd.random() < 0.5
+        emod, fn = [], codes("main")
+        if explicit:
+            fs_ = [f for f in p["funcs"] if f["mod"]]
+            if fs_ and rngd.random() < 0.8:
+                f = rngd.choice(fs_)             # a function of a file below the root (inside or outside the package)
+                emod, fn = f["mod"], f["name"]
+            else:
+                fn = codes(rngd.choice(NAMES))
+        cmds.append({"kind": kind, "explicit": explicit, "mod": emod, "fn": fn})
+        cpk.append(p)
     pseudo_cases = [{"pkg": p, "cmd": c} for p, c in zip(cpk, cmds)]
-    for case, rr, path in run_cli_cases(pseudo_cases, "rec", verd):
+    for case, rr, path in run_cli_cases(pseudo_cases, "rec", verd, tmpfs=False):
         status, abnormal = cli_status(rr)
         if abnormal:
             compare_cli(dict(case, exit="?", log=[]), rr, path, verd)
@@ -736,7 +1149,7 @@ def impl_to_spec(tier, ev, verd, corrupt=None):
             ev.impl_actions.add({"check": "CheckDone", "test": "Finish", "run": "RunEntry"}[case["cmd"]["kind"]])
         for e in run:
             owners.append({"pkg": case["pkg"], "cmd": case["cmd"], "cli": cli_args(case, path),
-                           "files": render_pkg(case["pkg"], "cli"), "outcome": rr.outcome, "stdout": rr.out[-1500:]})
+                           "files": render_any(case["pkg"], "cli"), "outcome": rr.outcome, "stdout": rr.out[-1500:]})
         events.extend(run)
         nruns += 1
 
@@ -774,7 +1187,8 @@ def run(tier):
                "families), each rendered to source and executed once (api: Package::run_tests twice in the harness; "
                "cli: one process of the roto CLI); distinct = distinct (package, invocation); non-trivial = at least "
                "two tests run (order matters), or a function shares a test's name, or a test body contains a call, "
-               "or a duplicate test name must be rejected, or (cli) failure must be reported / something must run")
+               "or a duplicate test name must be rejected, or (cli) failure must be reported / something must run; "
+               "a package directory (disk families) is non-trivial when it holds more than pkg.roto")
     cases = generate(tier, ev)
 
     # samples for the evidence file: readable source + what the spec expects
@@ -782,7 +1196,7 @@ def run(tier):
         inv = "Package::run_tests" if mode == "api" else "roto " + " ".join(cli_args(c, "<path>"))
         exp = ({"compiles": c["compiles"], "marks": c["log"], "verdict": c["verdict"]} if mode == "api" else
                {"exit": c["exit"], "marks": c["log"]})
-        return {"files": render_pkg(c["pkg"], mode), "invocation": inv, "expected": exp}
+        return {"files": render_any(c["pkg"], mode), "invocation": inv, "expected": exp}
 
     def pick(lst, pred):
         return next((c for c in lst if pred(c)), None)
@@ -795,22 +1209,42 @@ def run(tier):
               (pick(cases["cli"], lambda c: "cli:test:reject" in features(c) and len(c["log"]) >= 2), "cli")]
     chosen[2:3] = [(pick(cases["api"], lambda c: "interp_last_valid" in features(c) and len(c["log"]) >= 2), "api"),
                    (pick(cases["cli"], lambda c: "cli:check:interp_last_invalid" in features(c)), "cli")]
+    chosen += [(pick(cases["disk"], lambda c: len(c["pkg"]["disk"]) >= 4 and c["verdict"] == "err"
+                     and "disk:two_module_subdirs" in features(c)), "api"),
+               (pick(cases["diskcli"], lambda c: "diskcli:check:success:type@outside_roto" in features(c)
+                     and len(c["pkg"]["disk"]) >= 3), "cli")]
     ev.samples = [sample(c, m) for c, m in chosen if c is not None]
 
-    # S->I, api family
-    api = cases["api"]
-    batch = [{"files": render_pkg(c["pkg"], "api")} for c in api]
+    # S->I, api families (in-memory trees; package directories written to disk and read by FileTree::read)
+    api = cases["api"] + cases["disk"]
+    batch = [api_case(c["pkg"]) for c in api]
     results = vlib.run_batch("c19", batch, nproc=8, pid=PID, tag="api", stall=60)
+    lcnt = {}
     for c, res in zip(api, results):
         compare_api(c, res, verd)
         ev.case(None, nontrivial(c), key=vlib.shash([c["pkg"], c["cmd"]]))
         ev.traces += 1
-    # S->I, cli family
-    for c, rr, path in run_cli_cases(cases["cli"], "mc", verd):
+        if c["pkg"].get("disk") and "r" in res:
+            for f in listing_features(c["pkg"], c["live"], res["r"].get("listing") or {}):
+                lcnt["api:" + f] = lcnt.get("api:" + f, 0) + 1
+    # S->I, cli families
+    clis = cases["cli"] + cases["diskcli"]
+    for c, rr, path in run_cli_cases(clis, "mc", verd):
         compare_cli(c, rr, path, verd)
         ev.case(None, nontrivial(c), key=vlib.shash([c["pkg"], c["cmd"]]))
         ev.traces += 1
-    ev.extra["cli_processes"] = len(cases["cli"])
+        if c["pkg"].get("disk"):
+            for f in listing_features(c["pkg"], c["live"], LISTINGS.get(path) or {}):
+                lcnt["cli:" + f] = lcnt.get("cli:" + f, 0) + 1
+    ev.extra["cli_processes"] = len(clis)
+    # the order dimension must be real: in the directories that were actually read, the file system
+    # listed a sub-directory before another module of the same directory, and the other way round
+    ev.extra["disk_listing_counts"] = dict(sorted(lcnt.items()))
+    ev.extra["disk_base"] = disk_base()
+    if not verd.violations:
+        missing = [r + ":" + f for r in ("api", "cli") for f in LISTING_REQUIRED if not lcnt.get(r + ":" + f)]
+        if missing:
+            raise vlib.ToolError("C19 disk families: the directories read never had the listing orders %s" % missing)
 
     impl_to_spec(tier, ev, verd)
     if not verd.violations:
@@ -825,9 +1259,13 @@ def run(tier):
         "a test body is `mark; [call();] accept|reject`: bodies that diverge or trap are out of scope (C10)",
         "CLI output is only searched for the marker lines the scripts print themselves; exit status is classified "
         "as success (0) / failure (non-zero, not a panic or signal)",
-        "submodule directories use mod.roto as the code does (the documentation says lib.roto); the enumerated CLI "
-        "cases only use sibling files",
-        "exhaustive for the stated bounds only (<= 3 tests, <= 2 modules); larger packages are seeded random",
+        "submodule directories use mod.roto as the code does (the documentation says lib.roto)",
+        "package directories: names are those of MCTestRunner!DiskUniverse; a pkg.roto outside the package "
+        "directory, a mod.roto in it, x.roto next to x/mod.roto, symbolic links and unreadable entries are not "
+        "modelled; the listing orders exercised are those the file system under the scratch directory produces "
+        "(counted in disk_listing_counts)",
+        "exhaustive for the stated bounds only (<= 3 tests, <= 2 modules; package directories: the subsets of the "
+        "universe named in exhaustive_parts); larger packages are seeded random",
     ]
     rc = verd.finish()
     ev.write(len(verd.violations))
@@ -841,7 +1279,7 @@ def replay(path):
     verd = Verdicts(PID)
     if "case" in obj and "cli" not in obj:
         case = obj["case"]
-        res = vlib.run_batch("c19", [{"files": render_pkg(case["pkg"], "api")}], nproc=1, pid=PID, tag="replay")
+        res = vlib.run_batch("c19", [api_case(case["pkg"])], nproc=1, pid=PID, tag="replay")
         compare_api(case, res[0], verd)
     elif "case" in obj:
         case = obj["case"]
